@@ -903,7 +903,8 @@ pub fn generate(rng: &mut Rng, n: usize, tier: &str) -> Vec<Value> {
                 }
             }
             3 => rand_expr(rng, al, d, true), // tags anywhere
-            4 | 5 => named_shape(rng, al, d, false),
+            4 => named_shape(rng, al, d, false),
+            5 => named_shape(rng, al, d, true), // tags inside the class named by the quantifier
             _ => rand_expr(rng, al, d, false),
         };
         v.push(json!({ "e": e }));
